@@ -22,6 +22,7 @@ structure Laws (O : Ops) (VC VF : Nat → Idx → Prop) (par : Idx → Idx) : Pr
   support_nonempty : ∀ lv f, VF lv f → ∃ c, c ∈ O.support lv [f]
   support_nil : ∀ lv, O.support lv [] = []
   parent_nil : ∀ lv, O.parent lv [] = []
+  par_valid : ∀ lv c, VC (lv + 1) c → VC lv (par c)
 
 /-! the concrete hierarchy: dyadic refinement of tensor products of 1-D knot vectors -/
 
